@@ -107,6 +107,8 @@ def _run(prop, tier, seed, jobs, own, design, replay, rule, assumptions, signatu
         transitions += r['generated']
         byb = {}
         for m in mism:
+            if m['clause'].startswith('machinery.'):
+                raise common.MachineryError(f"{job['name']}: inconsistency inside the checking machinery: {m}")
             if not m['clause'].startswith(tuple(own)):
                 foreign += 1
                 continue
